@@ -269,7 +269,7 @@ theorem normalize_marginalize_den (e c : Expr) (r : List Var) (h : e.normalizeMa
   rw [div_den _ _ _ h, marginalize_den]
 
 /-- the variables `conditional` normalises over, as the code collects them (both overloads skip `Intervention`
-objects — the subscripts — since `fix:` f502ca2; the ranges of inner `Sum`s are collected) -/
+objects — the subscripts — since `fix:` a54a0f5; the ranges of inner `Sum`s are collected) -/
 def Expr.conditionalComplement (e : Expr) (ranges : List Var) : List Var :=
   diff' (dedup' ((e.iterVars.filter (fun (v : Var) => !v.isIv)).map Var.base)) (upgradeOrdering (ranges.map Var.base))
 
